@@ -4,7 +4,7 @@
 set -e
 F="$1"; PAT="$2"; REP="$3"; PROP="$4"; shift 4
 D=$(mktemp -d /tmp/pyvc-mut.XXXXXX)
-mkdir -p "$D/repo"; cp -r /repo/snaxc "$D/repo/"
+mkdir -p "$D/repo"; cp -r /repo/snaxc /repo/util "$D/repo/"
 python3 - "$D/repo/snaxc/$F" "$PAT" "$REP" <<'PY'
 import re, sys
 p, pat, rep = sys.argv[1:4]
